@@ -187,6 +187,20 @@ pub fn check(s: &'static dyn Proto, c: &Case, st: &mut Stats, _k: &KnownFindings
             }
         }
     }
+    for (name, base) in [("F1", &f1), ("F6a", &f6a)] {
+        for (mname, v) in crate::fieldmap::multi_byte_mutants(base, 0, nh, true) {
+            cands.push((format!("{name}:{mname}"), v));
+        }
+        // the same bit flipped in any two bytes
+        for i in 0..nh {
+            for j in i + 2..nh {
+                let mut v = base.clone();
+                v[i] ^= 1 << (j % 8);
+                v[j] ^= 1 << (j % 8);
+                cands.push((format!("{name}:pairflip@{i},{j}"), v));
+            }
+        }
+    }
     cands.push(("same-user-other-session".into(), f4.clone()));
     cands.push(("other-user-other-password".into(), f5.clone()));
     cands.push(("same-request-other-answer".into(), f6b.clone()));
@@ -277,7 +291,7 @@ pub const BUDGET: Budget = Budget {
 pub fn run(cfg: &RunCfg) -> (Outcome, EvidenceExtra) {
     let out = run_property(cfg, "C03", crate::suites::suites20(), BUDGET, strategy, check);
     let ev = EvidenceExtra {
-        rule: "per generated case: 4 pending server states (real record + accepting client; fake record; real record + wrong-password client; one of two answers to the same request) x candidates {all 8*Nh single-bit flips and all 255*Nh single-byte substitutions of two genuine finalizations, finalizations of another session of the same user / of another user+password / of the other answer to the same request, all-zero, all-0xFF, publicly computable constants (HMAC and hash of all-zero / all-0xFF / empty strings), 64 random strings}, each delivered to a clone of the state. evaluation = one ServerLogin::finish call. non-trivial = candidate != the state's genuine finalization; candidates deduplicated per case, cases distinct by hash of (suite, case)".into(),
+        rule: "per generated case: 4 pending server states (real record + accepting client; fake record; real record + wrong-password client; one of two answers to the same request) x candidates {all 8*Nh single-bit flips and all 255*Nh single-byte substitutions of two genuine finalizations, multi-byte alterations of them whose differences cancel under XOR or preserve the byte sum or the multiset of bytes (the same bit flipped in every pair of bytes, adjacent transpositions, +1/-1 pairs, 0f/f0/ff triples, rotation, reversal), finalizations of another session of the same user / of another user+password / of the other answer to the same request, all-zero, all-0xFF, publicly computable constants (HMAC and hash of all-zero / all-0xFF / empty strings), 64 random strings}, each delivered to a clone of the state. evaluation = one ServerLogin::finish call. non-trivial = candidate != the state's genuine finalization; candidates deduplicated per case, cases distinct by hash of (suite, case)".into(),
         assumptions: vec!["HMAC forgeries that were not generated are out of reach".into()],
         exhaustive: Some(false),
         extra: [("exhaustive_part".to_string(), json!("single-bit and single-byte substitutions of the genuine finalization are enumerated exhaustively per case"))].into_iter().collect(),
